@@ -660,6 +660,22 @@ func genC18(r *rand.Rand, tier string, idx int) *World {
 		}
 		w.Settings = append(w.Settings, sd)
 	}
+	if chance(r, 0.1) {
+		// a node registered without any label; every other node carries all the labels, and the settings
+		// select by absence only - they can meet on the bare node and nowhere else
+		w.Nodes[0].Bare, w.Nodes[0].Labels = true, nil
+		for _, nd := range w.Nodes[1:] {
+			nd.Labels = map[string]string{"zone": pick(r, "a", "b"), "pool": pick(r, "x", "y"), "canary": "yes"}
+		}
+		for i, sd := range w.Settings {
+			if sd.Name == w.Extra["unusable"] {
+				continue
+			}
+			sd.Selector, sd.ExprVals = nil, nil
+			sd.ExprKey, sd.ExprOp = []string{"pool", "canary", "zone"}[i%3], "DoesNotExist"
+		}
+		w.Extra["bareNode"] = "1"
+	}
 	w.Cfg = Config{ChaosSteps: pick(r, 10, 30, 60), Kubelet: true, SettingEdits: true, NodeChurn: chance(r, 0.4), Stall: chance(r, 0.3), MapOrder: 0}
 	if idx%2 == 1 {
 		w.Cfg.PReject = pick(r, 0.0, 0.05, 0.15)
@@ -1742,6 +1758,6 @@ func init() {
 
 func init() {
 	register(mixProfile(histProfile("C14", []string{"C14"}, 3000, 120000, histOpts{maxNodes: 6, pCanary: 0.5, fancy: []float64{0, 0.3}, faults: true, c02: true}, "C14.eds", "C14.ers", "C14.quiescent"),
-		genC14Inject, map[string]func(*Sim){"c14inject": bodyC14Inject},
-		"Even run indices: state injection for the status function - active, canary and an optional third replica set get drawn statuses (0 <= available <= ready <= current <= desired <= nodes), the canary one Canary-Paused / Canary-Failed conditions (absent/True/False, reason from the vocabulary), the ExtendedDaemonSet the canary-paused / canary-paused-reason / canary-unpaused / rolling-update-paused / rollout-frozen annotations in every value; then 1-2 real ExtendedDaemonSet reconciles judged by the status monitors."))
+		genC14Inject, map[string]func(*Sim){"c14inject": bodyC14Inject, "c14paused": bodyC14Paused},
+		"Even run indices: state injection for the status function - active, canary and an optional third replica set get drawn statuses (0 <= available <= ready <= current <= desired <= nodes), the canary one Canary-Paused / Canary-Failed conditions (absent/True/False, reason from the vocabulary), the ExtendedDaemonSet the canary-paused / canary-paused-reason / canary-unpaused / rolling-update-paused / rollout-frozen annotations in every value; then 1-2 real ExtendedDaemonSet reconciles judged by the status monitors. One even index in eight: the whole system with a canary paused before its replica set has taken its nodes over (optionally widened while paused), run until nothing moves, then status current/ready/available against the daemon pods that exist."))
 }
